@@ -8,6 +8,7 @@ SEG = 'photutils/segmentation/core.py::SegmentationImage'
 
 def register(reg):
     register_border(reg)
+    register_keep(reg)
     reg.record('SegmentationImage', {'data': ('arr', 2, 'int'), 'labels': ('seq', 'int'),
                                      'max_label': 'int', 'nlabels': 'int'})
     box = '(0, self.data.shape[0]), (0, self.data.shape[1])'
@@ -67,6 +68,75 @@ def register(reg):
                   'new_labels = np.arange(self.nlabels, dtype=dtype) + start_label + 1'),
                  ('new_label_map[self.labels] = new_labels', 'new_label_map[new_labels] = self.labels'),
                  ('data_new = new_label_map[self.data]', 'data_new = new_label_map[self.data] * 1 + 0 + (self.data > 0)')],
+    ))
+
+
+def register_keep(reg):
+    """keep_labels "equals the documented set-theoretic effect": the labels handed to
+    remove_labels are exactly the labels of the image that are not to be kept, each once."""
+    reg.record('SegmentationImageLabels', {'labels': ('seq', 'int')})
+    val = 'value[k]'
+    reg.add(Contract(
+        target=f'{SEG}.keep_labels', props=['C05'], kind='method', stmt='labels_tmp',
+        params={'self': 'SegmentationImageLabels', 'labels': ('seq', 'int')},
+        ensures=[
+            ('only-labels-of-the-image-that-are-not-kept',
+             f'forall(lambda k: exists(lambda m: self.labels[m] == {val}, (0, len(self.labels))) '
+             f'and not exists(lambda n: labels[n] == {val}, (0, len(labels))), (0, len(value)))'),
+            ('every-label-of-the-image-is-kept-or-listed',
+             'forall(lambda m: exists(lambda n: labels[n] == self.labels[m], (0, len(labels))) '
+             'or exists(lambda k: value[k] == self.labels[m], (0, len(value))), '
+             '(0, len(self.labels)))'),
+            ('listed-once',
+             'forall(lambda k, m: implies(k != m, value[k] != value[m]), (0, len(value)), '
+             '(0, len(value)))'),
+        ],
+        mutants=[('set(self.labels) - set(labels)', 'set(labels) - set(self.labels)'),
+                 ('set(self.labels) - set(labels)', 'set(self.labels) | set(labels)'),
+                 ('set(self.labels) - set(labels)', 'set(self.labels) & set(labels)'),
+                 ('set(self.labels) - set(labels)', 'set(self.labels)')],
+    ))
+    reg.record('SegmentationImageMissing', {'labels': ('seq', 'int'), 'max_label': 'nat'})
+    isl = lambda x: f'exists(lambda m: self.labels[m] == {x}, (0, len(self.labels)))'  # noqa: E731
+    reg.add(Contract(
+        target=f'{SEG}.missing_labels', props=['C05'], kind='property',
+        params={'self': 'SegmentationImageMissing'},
+        ensures=[
+            ('strictly-increasing',
+             'forall(lambda k, m: implies(k < m, result[k] < result[m]), (0, len(result)), '
+             '(0, len(result)))'),
+            ('only-absent-numbers-between-one-and-the-maximum',
+             f'forall(lambda k: result[k] >= 1 and result[k] <= self.max_label and '
+             f'not {isl("result[k]")}, (0, len(result)))'),
+            ('every-absent-number-is-listed',
+             f'forall(lambda x: {isl("x")} or exists(lambda k: result[k] == x, '
+             '(0, len(result))), (1, self.max_label + 1))'),
+        ],
+        mutants=[('set(range(self.max_label + 1))', 'set(range(self.max_label))'),
+                 ('np.insert(self.labels, 0, 0)', 'self.labels'),
+                 ('.difference(', '.intersection(')],
+    ))
+    # remove_masked_labels(partial_overlap=False): of the labels touching the mask, only those
+    # without a pixel outside it are removed
+    reg.add(Contract(
+        target=f'{SEG}.remove_masked_labels', props=['C05'], kind='method', stmt='remove_labels',
+        stmt_like='list(set(remove_labels) - set(interior_labels))', tag='fully-masked-only',
+        params={'remove_labels': ('seq', 'int'), 'interior_labels': ('seq', 'int')},
+        ensures=[
+            ('only-touching-labels-without-a-pixel-outside',
+             'forall(lambda k: exists(lambda m: remove_labels[m] == value[k], '
+             '(0, len(remove_labels))) and not exists(lambda n: interior_labels[n] == value[k], '
+             '(0, len(interior_labels))), (0, len(value)))'),
+            ('every-touching-label-is-interior-or-listed',
+             'forall(lambda m: exists(lambda n: interior_labels[n] == remove_labels[m], '
+             '(0, len(interior_labels))) or exists(lambda k: value[k] == remove_labels[m], '
+             '(0, len(value))), (0, len(remove_labels)))'),
+        ],
+        mutants=[('set(remove_labels) - set(interior_labels)',
+                  'set(interior_labels) - set(remove_labels)'),
+                 ('set(remove_labels) - set(interior_labels)',
+                  'set(remove_labels) & set(interior_labels)'),
+                 ('set(remove_labels) - set(interior_labels)', 'set(remove_labels)')],
     ))
 
 
